@@ -97,10 +97,54 @@ structure Built where
   lateError : Option String := none
   deriving Inhabited
 
+/-- the first name that occurs a second time (`_` may repeat): receiver, parameters and named
+results share one scope in the generated function -/
+def firstDuplicate : List String → List String → Option String
+  | _, [] => none
+  | seen, n :: rest => if n != "_" && seen.contains n then some n else firstDuplicate (n :: seen) rest
+
+/-- the second half of `CreateFunction`: build the body, then the hooks -/
+def buildFunction (env : Env) (eng : Engine) (m : MethodEntry) (src dst : ParamVar) (additional : List ParamVar)
+    (srcVar dstVar : Var) (argVars : List Var) : Outcome Built := do
+  let ctx : BCtx := { env := env, eng := eng, opts := m.opts, methodPos := m.decl.pos, retError := m.retError env }
+  let argNodes := (argVars.zip additional).map fun (v, a) => Node.root v.name a.ty
+  let fuel := env.tys.size + 1
+  let stmts ← (if m.opts.reverse
+    then ctx.dispatch fuel (.root srcVar.name src.ty) (.root dstVar.name dst.ty) argNodes
+    else ctx.dispatch fuel (.root dstVar.name dst.ty) (.root srcVar.name src.ty) argNodes)
+  let retError := m.retError env
+  let late (msgs : List String) : Outcome Built :=
+    .ok { fn := default, stmts := stmts, warnings := Stmt.listWarnings stmts, lateError := some (msgs.headD "") }
+  match buildManipulator env m.opts.preProcess src dst additional retError with
+  | .error msgs => late msgs
+  | .panic s => .panic s
+  | .ok pre =>
+  match buildManipulator env m.opts.postProcess src dst additional retError with
+  | .error msgs => late msgs
+  | .panic s => .panic s
+  | .ok post =>
+  pure {
+    fn := { comments := m.comments, name := m.decl.name, receiver := m.opts.receiver, src := srcVar,
+            dst := dstVar, additionalArgs := argVars, retError := retError, dstVarStyle := m.opts.style,
+            assignments := Stmt.listToAssignments env stmts, preProcess := pre, postProcess := post },
+    stmts := stmts,
+    warnings := Stmt.listWarnings stmts }
+
+/-- the names the generated function declares in its outermost scope -/
+def scopeNames (srcVar dstVar : Var) (argVars : List Var) (retError : Bool) : List String :=
+  [srcVar.name, dstVar.name] ++ argVars.map (·.name) ++ (if retError then ["err"] else [])
+
+/-- the name check and what follows it -/
+def checkNamesAndBuild (env : Env) (eng : Engine) (m : MethodEntry) (src dst : ParamVar) (additional : List ParamVar)
+    (srcVar dstVar : Var) (argVars : List Var) : Outcome Built :=
+  match firstDuplicate [] (scopeNames srcVar dstVar argVars (m.retError env)) with
+  | some n => .error [s!"{m.decl.pos}: the name {n} would be declared twice in the generated function"]
+  | none => buildFunction env eng m src dst additional srcVar dstVar argVars
+
 /-- `CreateFunction` -/
 def createFunction (env : Env) (eng : Engine) (m : MethodEntry) : Outcome Built :=
   match m.decl.params, m.decl.results with
-  | src :: additional, dst :: _ => do
+  | src :: additional, dst :: _ =>
     let err (pos msg : String) : Outcome Built := .error [s!"{pos}: {msg}"]
     if m.opts.reverse && !additional.isEmpty then
       err m.decl.pos "reverse cannot be used with additional arguments" else
@@ -123,29 +167,7 @@ def createFunction (env : Env) (eng : Engine) (m : MethodEntry) : Outcome Built 
     if m.opts.receiver != "" && srcVar.external then
       err m.decl.pos "an external package type cannot be a receiver" else
     let srcVar := if m.opts.receiver != "" then { srcVar with name := m.opts.receiver } else srcVar
-    let ctx : BCtx := { env := env, eng := eng, opts := m.opts, methodPos := m.decl.pos, retError := m.retError env }
-    let argNodes := (argVars.zip additional).map fun (v, a) => Node.root v.name a.ty
-    let fuel := env.tys.size + 1
-    let stmts ← (if m.opts.reverse
-      then ctx.dispatch fuel (.root srcVar.name src.ty) (.root dstVar.name dst.ty) argNodes
-      else ctx.dispatch fuel (.root dstVar.name dst.ty) (.root srcVar.name src.ty) argNodes)
-    let retError := m.retError env
-    let late (msgs : List String) : Outcome Built :=
-      .ok { fn := default, stmts := stmts, warnings := Stmt.listWarnings stmts, lateError := msgs.head? }
-    match buildManipulator env m.opts.preProcess src dst additional retError with
-    | .error msgs => late msgs
-    | .panic s => .panic s
-    | .ok pre =>
-    match buildManipulator env m.opts.postProcess src dst additional retError with
-    | .error msgs => late msgs
-    | .panic s => .panic s
-    | .ok post =>
-    pure {
-      fn := { comments := m.comments, name := m.decl.name, receiver := m.opts.receiver, src := srcVar,
-              dst := dstVar, additionalArgs := argVars, retError := retError, dstVarStyle := m.opts.style,
-              assignments := Stmt.listToAssignments env stmts, preProcess := pre, postProcess := post },
-      stmts := stmts,
-      warnings := Stmt.listWarnings stmts }
+    checkNamesAndBuild env eng m src dst additional srcVar dstVar argVars
   | _, _ => .panic "createFunction: method without parameter or result"
 
 end Convergen
